@@ -1,6 +1,8 @@
 import XmlRsModel.Dom
 import XmlRsModel.Thm.C13
 import XmlRsModel.Lemmas.DomEffect
+import XmlRsModel.Lemmas.DomHeight
+import XmlRsModel.Thm.C12
 import XmlRsModel.Lemmas.DataValid
 import XmlRsModel.Lemmas.DataValidPI
 /-! Property C15: edits that succeed keep the document serializable and faithful.
@@ -283,5 +285,43 @@ theorem data_edit_effect (s s' : St) (n : Nat) (f : Str → Option Str) (nn : No
 /-- a refused edit leaves the node as it was -/
 theorem refused_edit_changes_nothing (s s' : St) (n : Nat) (f : Str → Option Str) (e : Exc)
     (h : step.dataOp s n f = (s', .err e)) : s' = s := C13.dataOp_failure_unchanged s s' n f e h
+
+/-! ### the depth the parser reads back is never exceeded -/
+
+/-- every operation keeps every tree of the state (the document and every detached tree) within the nesting depth the
+    parser accepts, `MAX_ELEMENT_DEPTH` (translated from the source as `maxDepth_element`) -/
+theorem step_keeps_depth (s : St) (op : Op) (hi : Inv s) (hh : HeightInv s) : HeightInv (step s op).1 :=
+  step_heightInv s op hi hh
+
+/-- AFTER ANY HISTORY: if the trees of the initial state are within the depth - a parsed document is, the parser refuses
+    anything deeper (`C03.depth_refused`) -, no sequence of DOM calls makes a tree deeper than the parser reads back: the depth
+    clause of "no sequence of calls that each report success leaves a document whose serialization the parser rejects" -/
+theorem depth_bounded_after_any_history (s : St) (ops : List Op) (hi : Inv s) (hh : HeightInv s) :
+    HeightInv (C12.run s ops) ∧ elemHeight (C12.run s ops).doc ≤ Gen.Xml.maxDepth_element := by
+  have key : ∀ (ops : List Op) (s : St), Inv s → HeightInv s → HeightInv (C12.run s ops) := by
+    intro ops
+    induction ops with
+    | nil => intro s _ hh; exact hh
+    | cons op r ih => intro s hi hh; exact ih _ (C12.inv_step s op hi) (step_heightInv s op hi hh)
+  have h := key ops s hi hh
+  exact ⟨h, ((heightInv_iff _).mp h).1⟩
+
+/-- for a parsed document: if its elements nest no deeper than the bound (the parser refuses anything deeper), then after any
+    history of DOM operations the document tree nests no deeper than the parser reads back -/
+theorem parsed_document_stays_within_depth (d : IDoc) (ops : List Op) (hd : topsDepth d.kids ≤ Gen.Xml.maxDepth_element) :
+    elemHeight (C12.run (buildSt d) ops).doc ≤ Gen.Xml.maxDepth_element :=
+  (depth_bounded_after_any_history (buildSt d) ops (buildSt_inv d) (buildSt_heightInv d hd)).2
+
+example : topsDepth [TopItem.elem (.elem ⟨none, ['r']⟩ [] [.elem ⟨none, ['a']⟩ [] [], .text ['t']])] = 2 := by decide
+
+/-- the guard is what does it: an append that would reach depth `maxDepth_element + 1` is refused and changes nothing -/
+theorem too_deep_insert_refused (s s1 : St) (p c : Nat) (ref : Option Nat) (pn x : Node)
+    (hp : s.find p = some pn) (hd : s.detach c = (s1, some x)) (htd : tooDeep s1 pn x = true) :
+    (insertChild s p c ref).1 = s := by
+  unfold insertChild
+  repeat' split
+  all_goals first
+    | rfl
+    | (simp_all)
 
 end XmlRs.C15
